@@ -464,7 +464,12 @@ def o8(tier):
                     continue
                 if e.startswith('match:'):
                     continue                      # enum-to-integer encodings are checked by the state-machine obligations, not here
-                conv = W.conversion(e, ftypes.get(fld or '', ''))
+                try:
+                    conv = W.conversion(e, ftypes.get(fld or '', ''))
+                except W.OptionFlattened as of:
+                    r.fail(f'O8/{fn}/{col}/altered-on-write', f'{fn}: {record}.{fld or col} is an Option stored through `{e[:60]}`: None is written as the default value and read back as Some(default) '
+                           '(queries that look for NULL, e.g. the retry selection "epoch IS NULL", no longer find the record)')
+                    continue
                 rty = W.read_type(dbsrc, decoder, col)
                 if conv is None:
                     continue                      # plain accessor: bound as is, ToSql accepts or refuses, nothing is altered
@@ -532,8 +537,13 @@ def o12(tier):
     return r
 
 
+def o13(tier):
+    from props import memobs
+    return memobs.find_message_scoped(tier, 'O13', 'O13')
+
+
 def run(tier, seed, only=None):
-    obs = [('O1', o1), ('O2', o2), ('O3', o3), ('O4', o4), ('O5', o5), ('O6', o6), ('O7', o7), ('O8', o8), ('O9', o9), ('O10', o10), ('O11', o11), ('O12', o12)]
+    obs = [('O1', o1), ('O2', o2), ('O3', o3), ('O4', o4), ('O5', o5), ('O6', o6), ('O7', o7), ('O8', o8), ('O9', o9), ('O10', o10), ('O11', o11), ('O12', o12), ('O13', o13)]
     out = []
     for k, f in obs:
         if only and k not in only:
